@@ -227,7 +227,7 @@ func (e *Exec) zero(t types.Type) Value {
 	case *types.Signature:
 		return &FuncV{}
 	case *types.Chan:
-		return &OpaqueV{kind: "nilchan"}
+		return &ChanV{}
 	case *types.Tuple:
 		tv := make(TupleV, u.Len())
 		for i := range tv {
